@@ -3747,6 +3747,204 @@ fn scenario_maturity(work: &str, out: &mut Out, total: &mut BTreeMap<String, u64
 	merge_stats(&w, total);
 }
 
+/// Coinbase maturity at admission while the HEADER chain sits on a competing fork (headers of a
+/// heavier fork known header-first, its blocks not): the cutoff `next height - maturity` must be
+/// read on the BODY chain.  One job per (depth of the fork point below the body head, shape of the
+/// header fork): the fork's blocks hold MORE / FEWER / EQUALLY MANY outputs than the body chain at
+/// the same heights (so that `output_mmr_size` of the header found at the cutoff height in the
+/// header MMR differs from the body chain's in either direction), or the fork is one heavy block
+/// (the header MMR is then SHORTER than the cutoff height for deeper forks).  In each state - and
+/// again after each of two further body blocks - every unspent coinbase created at
+/// next - maturity - 2 .. next - maturity + 2 is spent by a transaction submitted commit-only and
+/// features-and-commit (immature ones also with the wrong feature claimed, and on the stem path):
+/// the admission verdict must be the verdict of block validation for the same spend in the next
+/// block on the body head (a scratch chain processes that block), i.e. refused with
+/// ImmatureCoinbase exactly when next < created + maturity.
+fn scenario_maturity_fork(work: &str, out: &mut Out, total: &mut BTreeMap<String, u64>, depth: usize, shape: usize) {
+	let shape_name = ["fork-has-more-outputs", "fork-has-fewer-outputs", "fork-has-equally-many-outputs", "fork-is-one-heavy-block"][shape];
+	let name = format!("maturity-fork-depth{}-{}", depth, shape_name);
+	let mut w = World::new(work, &name, Cfg { max_pool: 50, max_stem: 50, mine_w: 250 });
+	print_cfg(&w, out);
+	let w11 = World::weight_of(1, 1);
+	// common part: heights 1..4; block 3 splits the genesis coinbase into plain outputs for both sides
+	for h in 1..=4u64 {
+		let mut txs = vec![];
+		if h == 3 {
+			if let Some(o) = w.free_utxo().first().cloned() {
+				if let Some(t) = w.spend(&[o], 8, World::weight_of(1, 8) * FEE_BASE, None) {
+					txs.push(t);
+				}
+			}
+		}
+		let parent = w.head;
+		match w.build_block(parent, 1, &txs) {
+			Some(id) => {
+				w.deliver(out, id);
+			}
+			None => return,
+		}
+	}
+	let fork_point = w.head;
+	let plain: Vec<usize> = w.node_utxo().iter().filter(|x| !x.2).map(|x| x.0).collect();
+	if plain.len() < 8 {
+		out.raw(&format!("#STAT {}:not-enough-plain-outputs={}", name, plain.len()));
+		return;
+	}
+	// body chain: `depth` blocks, each with one transaction of 2 outputs (3 outputs per block)
+	let mut body_plain = plain.clone();
+	let mut body_block = |w: &mut World, out: &mut Out, body_plain: &mut Vec<usize>| -> bool {
+		let mut txs = vec![];
+		if let Some(o) = body_plain.pop() {
+			if let Some(t) = w.spend(&[o], 2, World::weight_of(1, 2) * FEE_BASE, None) {
+				txs.push(t);
+			}
+		}
+		let parent = w.head;
+		match w.build_block(parent, 1, &txs) {
+			Some(id) => {
+				w.deliver(out, id);
+				true
+			}
+			None => false,
+		}
+	};
+	for _ in 0..depth {
+		if !body_block(&mut w, out, &mut body_plain) {
+			return;
+		}
+	}
+	// the competing fork: built on the scratch chain, only its HEADERS go to the node
+	let flen = if shape == 3 { 1 } else { depth + 2 };
+	let mut tip = fork_point;
+	let mut fork_plain = plain.clone();
+	fork_plain.reverse();
+	let mut fork_ids = vec![];
+	for k in 0..flen {
+		let nout = match shape {
+			0 => 6,
+			2 => 2,
+			_ => 0,
+		};
+		let mut txs = vec![];
+		if nout > 0 {
+			if let Some(o) = fork_plain.pop() {
+				if let Some(t) = w.spend(&[o], nout, World::weight_of(1, nout) * FEE_BASE, None) {
+					txs.push(t);
+				}
+			}
+		}
+		let diff = if k == 0 { depth as u64 + 8 } else { 1 };
+		match w.build_block(tip, diff, &txs) {
+			Some(id) => {
+				fork_ids.push(id);
+				tip = id;
+			}
+			None => break,
+		}
+	}
+	let mut accepted = 0;
+	for id in &fork_ids {
+		let h = w.kit.blks[*id].block.header.clone();
+		match w.node.process_block_header(&h, Options::SKIP_POW) {
+			Ok(_) => accepted += 1,
+			Err(e) => {
+				out.raw(&format!("#STAT {}:fork-header-rejected:{}", name, error_class(&e)));
+				break;
+			}
+		}
+	}
+	let head_h = w.node.head().map(|t| t.height).unwrap_or(0);
+	let hh = w.node.header_head().unwrap();
+	let on_fork = fork_ids.iter().any(|id| w.kit.blks[*id].block.hash() == hh.last_block_h);
+	out.raw(&format!(
+		"# hist={}: body head height {} (fork point height 4, {} body blocks above it), header_head height {} on the competing fork: {} ({} fork headers accepted)",
+		name, head_h, depth, hh.height, on_fork, accepted
+	));
+	w.stat(&format!("maturity-fork:header-head-on-competing-fork={}", on_fork));
+	w.print_head(out);
+	w.obs(out, "headers of the competing fork accepted");
+	let srcs = [TxSource::PushApi, TxSource::Broadcast, TxSource::Fluff];
+	let mut k = 0usize;
+	for extra in 0..3 {
+		let h = w.node.head().map(|t| t.height).unwrap_or(0);
+		let next = h + 1;
+		let utxo = w.node_utxo();
+		for delta in [-2i64, -1, 0, 1, 2] {
+			let c = next as i64 - MATURITY as i64 + delta;
+			if c < 0 || c as u64 > h {
+				continue;
+			}
+			let c = c as u64;
+			let spent = w.pool_spent();
+			let o = match utxo.iter().find(|(o, hh, cb)| *cb && *hh == c && !spent.contains(o)).map(|x| x.0) {
+				Some(o) => o,
+				None => continue,
+			};
+			let mature = next >= c + MATURITY;
+			let tx = match w.spend(&[o], 1, w11 * FEE_BASE * 2, None) {
+				Some(t) => t,
+				None => continue,
+			};
+			// block side: the same spend in the next block on the body head, judged by a scratch chain
+			let block_ok = match w.kit.assemble(w.head, 1, &[tx.clone()], 0) {
+				Ok(b) => w.kit.builder().process_block(b, Options::SKIP_POW).is_ok(),
+				Err(_) => false,
+			};
+			let t = w.add_tx(out, tx, vec![], &format!("maturity-fork:coinbase-age:maturity{:+}", -delta));
+			let list: Vec<(Form, bool)> = if mature {
+				k += 1;
+				vec![([Form::V3, Form::V2][k % 2], k % 3 == 0)]
+			} else {
+				vec![(Form::V3, false), (Form::V2, false), (Form::V2WrongFeatures, false), (Form::V3, true), (Form::V2, true)]
+			};
+			for (form, stem) in list {
+				k += 1;
+				let src = srcs[k % srcs.len()];
+				let res = w.submit_form(out, t, src, stem, true, form);
+				w.stat(&format!(
+					"maturity-fork:depth={}:{}:created-at-next-minus-{}:{}:{}:{}",
+					depth + extra,
+					shape_name,
+					next - c,
+					if mature { "mature" } else { "immature" },
+					form.tag(),
+					res
+				));
+				let here = format!(
+					"hist={} body head height {} (next block {}), fork point height 4, header_head height {} on a competing fork whose blocks hold {}: coinbase o{} created at height {} (matures at {}) spent with inputs {} src={} stem={} => {}; block validation of the same spend at height {}: {}",
+					w.name,
+					h,
+					next,
+					hh.height,
+					shape_name,
+					o,
+					c,
+					c + MATURITY,
+					form.tag(),
+					src_letter(src),
+					stem,
+					res,
+					next,
+					if block_ok { "accepted" } else { "rejected" }
+				);
+				if (res == "ok") != block_ok {
+					out.raw(&format!("#ORACLE-FAIL C13 pool-admission-differs-from-block-validation-of-coinbase-maturity {}", here));
+				}
+				if block_ok != mature {
+					out.raw(&format!("#ORACLE-FAIL C13 block-validation-differs-from-the-maturity-rule {}", here));
+				}
+				if !mature && res != "ok" && res != "err:ImmatureCoinbase" {
+					out.raw(&format!("#ORACLE-FAIL C13 pool-refuses-immature-coinbase-spend-for-another-reason {}", here));
+				}
+			}
+		}
+		if extra < 2 && !body_block(&mut w, out, &mut body_plain) {
+			break;
+		}
+	}
+	merge_stats(&w, total);
+}
+
 /// Header-first propagation: the node has accepted the HEADERS of the next two blocks but not the
 /// blocks.  Transactions sitting exactly in the gap - lock height, coinbase maturity and NRD
 /// relative height satisfied at header_head + 1 but not at (body) head + 1 - must be refused until
@@ -4362,6 +4560,15 @@ fn main() {
 	if mode == "maturity" {
 		let rounds = if thorough { 16 } else { 8 };
 		jobs.push(("maturity".into(), Box::new(move |w, o, t| scenario_maturity(w, o, t, rounds))));
+		// header chain on a competing fork: fork point 0 .. maturity+3 below the body head
+		for depth in 0..=(MATURITY as usize + 3) {
+			for shape in 0..4usize {
+				if shape == 2 && !thorough {
+					continue;
+				}
+				jobs.push((format!("maturity-fork-{}-{}", depth, shape), Box::new(move |w, o, t| scenario_maturity_fork(w, o, t, depth, shape))));
+			}
+		}
 	}
 	if mode == "all" || mode == "scenarios" {
 		jobs.push(("evict-witness".into(), Box::new(|w, o, t| scenario_evict_witness(w, o, t))));
